@@ -759,6 +759,14 @@ pub fn run(ctx: &Ctx) -> Outcome {
     t1.coverage.remove("samples");
     t1.coverage.remove("rule");
     out.absorb(t1);
+    {
+        let mut vs = VioSet::default();
+        for x in std::mem::take(&mut out.violations) {
+            vs.add(x);
+        }
+        crate::fill::sweep(&mut out, &mut vs, ctx.tier.is_quick(), "C15");
+        out.violations = vs.into_vec();
+    }
     out.assume("T1 half: shutdown is requested by the server application right after its n-th accept; the moment relative to everything else varies with the explored schedules and chunkings");
     out
 }
